@@ -523,6 +523,8 @@ def real_pool_stage(ctx, prop, extra_oracle=None, n_random=4, kinds=None):
             cfg = "threadpool-real-w%d" % workers
             detail = {"case": case, "config": cfg, "schedule": None, "document": W.document(case)}
             feats = "+".join(sorted(W.features(case)))
+            if "completion-raises-after-sub-resolvers" in W.features(case):
+                feats = "completion-raises-after-sub-resolvers"      # the known class keeps one stable signature
             try:
                 schema, doc = W.prepared(case)
                 try:
